@@ -744,6 +744,21 @@ func TestLargeResponses(t *testing.T) {
 // timeouts of today), and a second request - from a new client socket, on a new connection for TCP - must be
 // answered like the first. All cases run at once, each with a server of its own.
 
+// sendJunk sends what any host can send to a datagram server: an empty datagram, a single byte, eleven bytes (one
+// short of a header), twelve zero bytes. None of them is a request; none of them may stop the server from
+// answering the requests that follow.
+func sendJunk(to *net.UDPAddr) {
+	sock, err := net.ListenUDP("udp4", &net.UDPAddr{IP: net.IPv4(127, 0, 0, 1)})
+	if err != nil {
+		return
+	}
+	defer sock.Close()
+	for _, junk := range [][]byte{{}, {0x7F}, make([]byte, 11), make([]byte, 12)} {
+		sock.WriteToUDP(junk, to)
+		time.Sleep(5 * time.Millisecond)
+	}
+}
+
 type idleCase struct {
 	Kind   string `json:"server"` // llmnr, udp, server, tcp
 	IdleMS int    `json:"idle_ms"`
@@ -806,6 +821,7 @@ func runIdle(c idleCase) []vf.Finding {
 		if !ask(0x4001) {
 			return []vf.Finding{vf.F("llmnr.Server", "request-never-answered", "the first request to a fresh server")}
 		}
+		sendJunk(to)
 		time.Sleep(idle)
 		if !ask(0x4002) {
 			return []vf.Finding{vf.F("llmnr.Server", "no-answer-after-idle-period", "a request %v after the previous one (which was answered) got no response in three tries", idle)}
@@ -829,6 +845,18 @@ func runIdle(c idleCase) []vf.Finding {
 	}
 	if ok, why := ask(0x4101); !ok {
 		return []vf.Finding{vf.F(c.Kind, "request-never-answered", "the first request to a fresh server: %s", why)}
+	}
+	if c.Kind == "tcp" {
+		// a connection that sends an empty frame and one that sends half a length prefix, then go away
+		for _, junk := range [][]byte{{0, 0}, {0}} {
+			if cn, err := net.DialTimeout("tcp", srv.addr, 2*time.Second); err == nil {
+				cn.Write(junk)
+				time.Sleep(20 * time.Millisecond)
+				cn.Close()
+			}
+		}
+	} else if to, err := net.ResolveUDPAddr("udp", srv.addr); err == nil {
+		sendJunk(to)
 	}
 	time.Sleep(idle)
 	if ok, why := ask(0x4102); !ok {
